@@ -485,7 +485,8 @@ def main(chk):
         'timestamps, ban_time and clock readings, against the rules stated in the property. (O3) ConnectionPool::get with solver-chosen checkout / health-check outcomes: '
         'who gets banned, who gets tried next, and that a connection whose health check failed is never handed out. (O4) the banned-host lookup used by the admin BAN/UNBAN '
         'commands. (H, failover family) Client::handle on pools with replicas that fail or time out: the failing replica is banned, the primary never is, the next request '
-        'avoids it.')
+        'avoids it. (O2-rebuild) a pool re-created by a reload has a ban list of its own, one empty slot per shard of the new definition -- bans are keyed by the addresses '
+        'of the pool that issued them.')
     chk.assumptions += [
         'chrono::Utc::now / NaiveDateTime::timestamp modelled as symbolic non-decreasing seconds; parking_lot RwLock single-threaded',
         'admin console command parsing and load-balancing fairness (rand shuffle modelled as an arbitrary permutation) are outside the claim',
